@@ -157,13 +157,7 @@ func (c *Cache) Watch(
 		return err
 	}
 
-	// Remember Owner watching this GVK
 	_, informerExists := c.informerReferences[gvk]
-	if !informerExists {
-		c.informerReferences[gvk] = map[OwnerReference]struct{}{}
-	}
-	c.informerReferences[gvk][ownerRef] = struct{}{}
-
 	if !informerExists {
 		log.Info("adding new watcher",
 			"ownerGV", ownerRef.GroupKind,
@@ -178,9 +172,21 @@ func (c *Cache) Watch(
 
 		// ensure to add all event handlers to the new informer
 		if err := c.cacheSource.handleNewInformer(informer); err != nil {
+			// An informer without event handlers must not stay around:
+			// a later Watch would find it and never attach the handlers.
+			if delErr := c.informerMap.Delete(ctx, gvk); delErr != nil {
+				log.Error(delErr, "releasing informer after failed handler registration", "gvk", gvk.String())
+			}
 			return fmt.Errorf("registering EventHandlers for %v: %w", gvk, err)
 		}
+
+		c.informerReferences[gvk] = map[OwnerReference]struct{}{}
 	}
+
+	// Remember Owner watching this GVK.
+	// Only done after the informer is running with all event handlers attached,
+	// so a failed start is retried by the next Watch call instead of being mistaken for a running informer.
+	c.informerReferences[gvk][ownerRef] = struct{}{}
 
 	return nil
 }
